@@ -272,7 +272,8 @@ def run(rep):
                 return
     # one-preemption sweeps over the hand-off between the state machine thread and the transport thread
     nsweep = 0
-    for kind, variants in (("transport/feed", ("plain",)), ("transport-read/psm", ("plain",)), ("transport/psm", ("plain", "inbound", "partial")), ("psm/transport", ("plain", "inbound", "partial"))):
+    for kind, variants in (("transport/feed", ("plain",)), ("transport-read/psm", ("plain",)), ("transport/psm", ("plain", "inbound", "partial")), ("psm/transport", ("plain", "inbound", "partial")),
+                           ("psm/submitter", ("plain", "partial"))):
         for variant in variants:
             for k in range(0, 500):
                 verdict, info = assoc.run_send_sweep(kind, k, variant)
